@@ -21,6 +21,7 @@ RULE = ('tables 2015 and 2023 (year= as int) and the combined-events table x eve
         'table end / first non-null column / beyond the last column, or a half-integer age; distinct (table, gender, event, age)')
 ASSUMPTIONS = ['the combined-events table carries no open bests: only the factor and spelling clauses apply to wma_athlon_*',
                'rows with null cells in the middle (2015 women\'s pole vault above 90) are covered up to the last non-null cell']
+RULE = RULE + '; table year also as text and left out (the three entry points must select the same table); interleaved histories include calls that raise'
 
 GENDERS = {'m': ['m', 'M', 'male', 'Male', 'men'], 'f': ['f', 'F', 'female', 'FEMALE', 'Female']}
 
